@@ -45,7 +45,7 @@ def ipStr (v : Nat) : String := s!"{v / 16777216 % 256}.{v / 65536 % 256}.{v / 2
 def tailToks (L : Layout) : TailVal → List String
   | .none => []
   | .elems es => ["[" ++ String.intercalate ";" (es.map (fun e => match L.tail with
-      | .vec elt => String.intercalate "," (fieldsToks elt e)
+      | .vec elt _ _ => String.intercalate "," (fieldsToks elt e)
       | _ => "?")) ++ "]"]
   | .set xs => ["{" ++ String.intercalate ";" (xs.map (fun x => match L.tail with
       | .set .mal => s!"veh:mod:{x}"
@@ -90,4 +90,16 @@ def handle (ws : List String) : Option String :=
   | ["pkt.rt", m, h] => some (decLine m h true)
   | _ => none
 
+end Insim.Drv.Pkt
+
+namespace Insim.Drv.Pkt
+def handleLen (ws : List String) : Option String :=
+  match ws with
+  | ["enc.len", m, n] => match n.toNat? with
+    | some len => some (match Insim.Frame.encodeLength ⟨m = "c"⟩ len with
+        | .ok k => s!"ok {k}"
+        | .err _ => "err"
+        | .panic => "panic")
+    | none => some "bad-op"
+  | _ => none
 end Insim.Drv.Pkt
